@@ -42,7 +42,84 @@ Fixpoint run_steps (t : labels) (st : kstate) (ls : list (list N)) : list sexp :
       Lst [s_children t' (ks_dom st) (ks_dom st'); Lst (map s_event log)] :: run_steps t' st' rest
   end.
 
+(* ------------------------------------------------------------ leptos <For> / <ForEnumerate> *)
+(** modes 11 / 12 (harness/dom/src/c11for.rs): the list is the keyed list of Keyed.v with
+    one node per row; every row owns a counter signal that the harness increments once per
+    entry.  That the row's reactive state stays alive while the row is retained is what the
+    model asserts by answering [count = entries since the row was built] and [disposed = 0]
+    (compared with the implementation, not a theorem). *)
+
+Fixpoint birth_of (g : nat) (t : list (nat * nat)) : nat :=
+  match t with
+  | [] => 0
+  | (x, b) :: r => if Nat.eqb x g then b else birth_of g r
+  end.
+
+Definition note_births (step : nat) (items : list item) (t : list (nat * nat)) : list (nat * nat) :=
+  fold_left (fun t it => if existsb (fun xb => Nat.eqb (fst xb) (it_gen it)) t then t
+                         else t ++ [(it_gen it, step)]) items t.
+
+Definition for_entry (enumerate : bool) (t : labels) (births : list (nat * nat)) (keys : list N)
+                     (step bump : nat) (before : list node) (n : node) : sexp :=
+  let '(k, g, j) := lookup n t in
+  let prev := Num (match index_of n before with Some p => Z.of_nat p | None => (-1)%Z end) in
+  if (k <? 0)%Z then Lst [Num k; Num 0; Num j; prev]
+  else
+    let c := snat (step - birth_of (Z.to_nat g) births + bump) in
+    if enumerate
+    then Lst [Num k; Num g; c; prev;
+              Num (match index_of (Z.to_N k) keys with Some p => Z.of_nat p | None => (-7)%Z end)]
+    else Lst [Num k; Num g; c; prev].
+
+Definition for_log (e : event) : list sexp :=
+  match e with
+  | EvUnmount k g => [Lst [Num 4; sN k; snat g]]
+  | EvBuild k g _ => [Lst [Num 3; sN k; snat g]]
+  | _ => []
+  end.
+
+Definition for_step (enumerate : bool) (t : labels) (births : list (nat * nat)) (step : nat)
+                    (before : list node) (st : kstate) (log : list event) : sexp * list node :=
+  let vis := filter (fun n => negb (N.eqb n (ks_marker st))) (ks_dom st) in
+  let a := Lst (map (for_entry enumerate t births (ks_keys st) step 0 before) vis) in
+  let b := Lst (map (for_entry enumerate t births (ks_keys st) step 1 vis) vis) in
+  let flags := Lst (map (fun it => Lst [sN (it_key it); snat (it_gen it); Num 0; Num 0]) (ks_items st)) in
+  (Lst [a; Lst (flat_map for_log log); flags; b], vis).
+
+Fixpoint for_steps (enumerate : bool) (t : labels) (births : list (nat * nat)) (step : nat)
+                   (before : list node) (st : kstate) (ls : list (list N)) : list sexp :=
+  match ls with
+  | [] => []
+  | l :: rest =>
+      let '(st', log, p) := rebuild st l in
+      if p then [Lst [Num (-9)]] else
+      let t' := t ++ flat_map item_labels (ks_items st') in
+      let births' := note_births step (ks_items st') births in
+      let '(out, vis) := for_step enumerate t' births' step before st' log in
+      out :: for_steps enumerate t' births' (S step) vis st' rest
+  end.
+
+Definition run_for (enumerate : bool) (c : sexp) : sexp :=
+  let npre := as_nat (nth_s 1 c) in
+  let npost := as_nat (nth_s 2 c) in
+  let ls := map (fun l => map as_N (as_list l)) (as_list (nth_s 3 c)) in
+  let pre := map N.of_nat (seq 0 npre) in
+  let post := map N.of_nat (seq npre npost) in
+  let t0 := map (fun i => (N.of_nat i, ((-1)%Z, 0%Z, Z.of_nat i))) (seq 0 npre)
+            ++ map (fun j => (N.of_nat (npre + j), ((-2)%Z, 0%Z, Z.of_nat j))) (seq 0 npost) in
+  match ls with
+  | [] => Lst []
+  | l0 :: rest =>
+      let '(st, log) := build_mount 1 (pre ++ post) (hd_error post) (N.of_nat (npre + npost)) l0 in
+      let t := t0 ++ [(ks_marker st, ((-3)%Z, 0%Z, 0%Z))] ++ flat_map item_labels (ks_items st) in
+      let births := note_births 0 (ks_items st) [] in
+      let '(out, vis) := for_step enumerate t births 0 [] st log in
+      Lst (out :: for_steps enumerate t births 1 vis st rest)
+  end.
+
 Definition run_C11 (c : sexp) : sexp :=
+  if Z.eqb (as_Z (nth_s 0 c)) 11 then run_for false c else
+  if Z.eqb (as_Z (nth_s 0 c)) 12 then run_for true c else
   let m := as_nat (nth_s 0 c) in
   let npre := as_nat (nth_s 1 c) in
   let npost := as_nat (nth_s 2 c) in
